@@ -28,7 +28,8 @@ var DefaultAccts = []Acct{
 }
 
 var Defects = []string{"missing-auth", "malformed-auth", "bad-signature", "empty-signature", "wrong-secret", "unknown-key",
-	"altered-header", "altered-query", "altered-payload", "altered-path", "old-date", "future-date", "wrong-region"}
+	"altered-header", "altered-query", "altered-payload", "altered-path", "old-date", "future-date", "wrong-region",
+	"dup-query-first", "te-chunked-altered-payload"}
 
 func NewGen(r *lib.Rand) *Gen {
 	return &Gen{R: r, Buckets: []string{"bkt-a", "bkt-b", "bkt-c"},
